@@ -12,6 +12,7 @@ with CFG = {"me": s, "lo": [s..]|None, "vd": [[key, tag]..]|None, "ph": [s..]|No
 all text latin-1.  Phase 0 is the start of qmail-send; a later phase rewrites the control files, sends HUP if
 k = "hup", and injects its messages.
 """
+import vlib
 import fcntl, json, os, re, select, shutil, signal, subprocess, sys, time
 
 LIB = os.path.dirname(os.path.abspath(__file__))
@@ -105,7 +106,7 @@ class Rig:
         self.src, self.root, self.split = src, root, split
         self.q = os.path.join(root, "queue")
         self.qenv = dict(os.environ)
-        self.qenv.update({"LD_PRELOAD": os.path.join(os.path.dirname(LIB), "build", "shim.so"), "VERIF_IDS": ids, "VERIF_ROOT": root})
+        self.qenv.update({"LD_PRELOAD": os.path.join(vlib.BUILD, "shim.so"), "VERIF_IDS": ids, "VERIF_ROOT": root})
         self.send = self.clean = None
         self.known = set()
         self.nmsg = 0
